@@ -67,6 +67,8 @@ func dispatch(prop, tier string, seed int64) int {
 		return conc.RunC16(tier, seed)
 	case "C05":
 		return conc.RunC05(tier, seed)
+	case "C06":
+		return conc.RunC06(tier, seed)
 	case "C15":
 		return netx.RunC15(tier, seed, os.Getenv("VERIF_RACE_PASS") != "")
 	case "C13":
